@@ -4,6 +4,7 @@ import Nsq.Model.Restart
 import Nsq.Proofs.Life
 import Nsq.Proofs.InFlight
 import Nsq.Proofs.InFlightEmpty
+import Nsq.Proofs.InFlightQuiesce
 import Nsq.Proofs.LifeLock
 import Nsq.Tie.Life
 /-
@@ -112,6 +113,79 @@ example : Nsq.Proofs.InFlight.NoDupPush (InFlight.initSt []) zombieSchedule := b
   simp [Nsq.Proofs.InFlight.NoDupPush, Nsq.Proofs.InFlight.pushes, zombieSchedule, InFlight.step, InFlight.initSt,
     InFlight.okH, InFlight.push, InFlight.up, InFlight.dropCont, InFlight.contObjs]
 
+
+/-! ### the positive theorem: `IndexOK` always, `MapHeapAgree` at quiescence — EVERY schedule of the committed shape
+
+With F48 (`pushAtomic`: map insert and heap push are one critical section), F16 (`scanAtomic`) and F7 (`fixed`) the three
+counter-examples above (`zombieSchedule`, `lateAnswerSchedule`, `duplicateSchedule` — all three live in the window between
+the map insert and the heap push) are gone, and the statement holds with NO schedule hypothesis (`NoDupPush` is not needed
+any more).  Invariant `Proofs.InFlightQuiesce.QInv` (index fields; map ⊆ heap; heap ⊆ map ∪ answers in progress; every id
+has at most one owner).  Whether the tree has F27 (`ansLock`) does not matter. -/
+
+/-- a channel of the committed shape whose queue holds the distinct ids `q`, nothing in flight -/
+def committedInit (q : List Nat) (ansLock : Bool) : InFlight.St :=
+  { InFlight.initSt q with scanAtomic := true, pushAtomic := true, ansLock := ansLock }
+
+/-- every reachable state, whatever operations are in progress: every heap slot's object carries that slot's index -/
+theorem index_ok_every_schedule (q : List Nat) (hq : q.Nodup) (al : Bool) (sched : List InFlight.Step) (s : InFlight.St)
+    (h : InFlight.run true (committedInit q al) sched = InFlight.Res.ok s) : InFlight.IndexOK s.h :=
+  (Nsq.Proofs.InFlightQuiesce.run_qinv sched _ s (Nsq.Proofs.InFlightQuiesce.qinv_init q hq true true al) rfl rfl h).ok
+
+/-- every reachable state with no operation in progress (no goroutine between two of its critical sections): the deadline
+heap is a permutation of the in-flight map — no message in flight without a timeout entry, no timeout entry without a
+message in flight, none twice -/
+theorem map_heap_agree_at_quiescence (q : List Nat) (hq : q.Nodup) (al : Bool) (sched : List InFlight.Step) (s : InFlight.St)
+    (h : InFlight.run true (committedInit q al) sched = InFlight.Res.ok s) (hquiet : s.conts = []) :
+    InFlight.MapHeapAgree s ∧ InFlight.IndexOK s.h := by
+  have inv := Nsq.Proofs.InFlightQuiesce.run_qinv sched _ s (Nsq.Proofs.InFlightQuiesce.qinv_init q hq true true al) rfl rfl h
+  exact ⟨Nsq.Proofs.InFlightQuiesce.qinv_quiescent s inv hquiet, inv.ok⟩
+
+/-- … and while operations ARE in progress: every in-flight message has its heap entry, and a heap entry without an
+in-flight message belongs to a FIN / REQ / TOUCH that has popped the message and is about to remove the entry -/
+theorem map_heap_agree_in_progress (q : List Nat) (hq : q.Nodup) (al : Bool) (sched : List InFlight.Step) (s : InFlight.St)
+    (h : InFlight.run true (committedInit q al) sched = InFlight.Res.ok s) :
+    (∀ o ∈ s.map, o ∈ s.h.pq) ∧ (∀ o ∈ s.h.pq, o ∈ s.map ∨ o ∈ Nsq.Proofs.InFlightQuiesce.answering s.conts) ∧
+    s.h.pq.Nodup ∧ s.map.Nodup := by
+  have inv := Nsq.Proofs.InFlightQuiesce.run_qinv sched _ s (Nsq.Proofs.InFlightQuiesce.qinv_init q hq true true al) rfl rfl h
+  refine ⟨inv.mp, inv.pm, Nsq.Proofs.InFlight.indexOK_nodup inv.ok, ?_⟩
+  rw [List.nodup_iff_count]
+  intro x
+  have := inv.own x
+  simp only [Nsq.Proofs.InFlightQuiesce.own] at this
+  omega
+
+/-- the same statement about the instance of the micro-step model that the regenerated facts of the CURRENT TREE select
+(`Tie.Life.treeFixed / treeScanAtomic / treePushAtomic / treeAnsLock`; audit B12: a tree that reverts F7, F16 or F48 changes
+these parameters, the ties `tree_fixed`, `tree_scan_atomic`, `tree_push_atomic` fail and this is no longer a statement about it) -/
+theorem map_heap_agree_tree (q : List Nat) (hq : q.Nodup) (sched : List InFlight.Step) (s : InFlight.St)
+    (h : InFlight.run Nsq.Tie.Life.treeFixed
+      { InFlight.initSt q with scanAtomic := Nsq.Tie.Life.treeScanAtomic, pushAtomic := Nsq.Tie.Life.treePushAtomic,
+                               ansLock := Nsq.Tie.Life.treeAnsLock } sched = InFlight.Res.ok s) :
+    InFlight.IndexOK s.h ∧ (s.conts = [] → InFlight.MapHeapAgree s) := by
+  rw [Nsq.Tie.Life.tree_fixed, Nsq.Tie.Life.tree_scan_atomic, Nsq.Tie.Life.tree_push_atomic] at h
+  exact ⟨index_ok_every_schedule q hq _ sched s h, fun hq' => (map_heap_agree_at_quiescence q hq _ sched s h hq').1⟩
+
+/-- the three former counter-examples, run on the committed shape, end in agreement (they were theorems about the
+pre-F48 shape: `map_heap_agree_full_false`, `map_heap_agree_late_answer`, `index_ok_full_false` above) -/
+theorem former_counterexamples_agree :
+    (match InFlight.run true (committedInit [] false) zombieSchedule with
+     | InFlight.Res.ok s => s.conts.isEmpty && InFlight.mapHeapAgreeB s && InFlight.indexOkB s.h | _ => false) = true ∧
+    (match InFlight.run true (committedInit [] false) lateAnswerSchedule with
+     | InFlight.Res.ok s => s.conts.isEmpty && InFlight.mapHeapAgreeB s && InFlight.indexOkB s.h | _ => false) = true ∧
+    -- the double push: the REQ now removes the heap entry the delivery has already pushed; one slot in the end
+    (match InFlight.run true (committedInit [] false) duplicateSchedule with
+     | InFlight.Res.ok s => s.conts.isEmpty && decide (s.h.pq = [1]) && decide (s.map = [1]) && InFlight.indexOkB s.h
+     | _ => false) = true := by decide
+
+/-- non-vacuity: three messages, deliveries, a deferred REQ, a TOUCH, a FIN, a timeout scan and an Empty racing one another;
+at the end nothing is in progress, two messages are in flight and the heap holds exactly those two -/
+example : (match InFlight.run true (committedInit [1, 2, 3] false)
+      [.startMapPush 1 1 10, .startMapPush 1 2 20, .reqPop 1 1 5, .startPQPush 1, .touchPop 1 2, .reqRemove 1, .touchRemove 2,
+       .startPQPush 2, .reqPut 1, .touchMapPush 2 30, .deferPQPush 1 50, .touchPQPush 2, .startMapPush 2 3 15, .scanPeek 16,
+       .startPQPush 3, .scanPop 3, .dscanPeek 60, .dscanPop 1, .startMapPush 2 1 40, .startPQPush 1, .finPop 2 1, .finRemove 1,
+       .startMapPush 1 3 70, .startPQPush 3] with
+    | InFlight.Res.ok s => s.conts.isEmpty && decide (s.map = [3, 2]) && decide (s.h.pq = [2, 3]) && InFlight.mapHeapAgreeB s
+    | _ => false) = true := by decide
 
 /-! ### Empty racing an answer in progress (audit B17) -/
 
